@@ -71,6 +71,29 @@ EXPR_PAIRS = [
     ('regex("^\\D+$")', 'regex("^\\d+$")'), ('regex("\\W")', 'regex("\\w")'), ('regex("\\S")', 'regex("\\s")'), ('extract("(\\w+)")', 'extract("(\\W+)")'),
     ('regex(field.memo, "\\D")', 'regex(field.memo, "\\d")'),
 ]
+VARS_RULES = '''is_wire = field.type == "WIRE"
+has_ref = contains(field.memo, "REF")
+recent = date >= "2020-01-01"
+first_order = orders[0].amount > 0
+
+[Wire]
+match: is_wire
+category: Transfers
+tags: wire
+
+[With Ref]
+match: has_ref and amount != 0
+category: Bills
+subcategory: Referenced
+
+[Recent Netflix]
+match: recent and contains("NETFLIX")
+category: Subscriptions
+
+[Has Orders]
+match: first_order
+tags: ordered
+'''
 VIEW_FILTERS = ['total > 100', 'months >= 2', 'category == "food"', 'sum(payments) > Threshold', 'max(sum(by("month"))) > 50', 'cv < 0.5', '"Recurring" in tags']
 FMT = '{date:%Y-%m-%d},{description},{amount},{memo},{type}'
 
@@ -125,6 +148,11 @@ class History(RuleBasedStateMachine):
     # ---- setup
     @initialize(files=file_pool(), txns=st.lists(lang.txn_case, min_size=4, max_size=4), rows=lang.rows_case)
     def setup(self, files, txns, rows):
+        # one file whose top-level variables depend on custom fields, and transactions with / without those fields:
+        # what a variable evaluates to for one transaction must not affect the next
+        files = files + [{'kind': 'rules', 'name': 'vars.rules', 'text': VARS_RULES}]
+        txns = [dict(txns[0], field=None), dict(txns[1], field={'type': 'WIRE', 'memo': 'REF 1', 'code': 'x', 'vendor': 'y'}, description='NETFLIX ' + txns[1]['description']),
+                dict(txns[2], date=None)] + txns[3:]
         self.files, self.txns, self.rows = files, txns, rows
         self.dir = obs.write_rules('x', 'placeholder')[:-len('/placeholder')]
         for f in files:
@@ -138,7 +166,7 @@ class History(RuleBasedStateMachine):
                     fh.write(f"{t['date']},{t['description']},{t['amount']!r},{f.get('memo', '').replace(',', ' ')},{f.get('type', '').replace(',', ' ')}\n")
 
     # ---- operations
-    @rule(i=st.integers(0, 4), mode=st.sampled_from(['first_match', 'first_match', 'most_specific']), order=st.sampled_from(['rules_first', 'transforms_first', 'transforms_first']))
+    @rule(i=st.integers(0, 5), mode=st.sampled_from(['first_match', 'first_match', 'most_specific']), order=st.sampled_from(['rules_first', 'transforms_first', 'transforms_first']))
     def load(self, i, mode, order):
         i %= len(self.files)
         self.steps.append(['load', i, mode, order])
@@ -188,7 +216,7 @@ class History(RuleBasedStateMachine):
         self.compare({'k': 'classify', 'txn': self.txns[t], 'rows': self.rows})
 
     @precondition(lambda self: self.files is not None)
-    @rule(i=st.integers(0, 4), t=st.integers(0, 3), mode=st.sampled_from(['first_match', 'most_specific']))
+    @rule(i=st.integers(0, 5), t=st.integers(0, 3), mode=st.sampled_from(['first_match', 'most_specific']))
     def engine_match(self, i, t, mode):
         i %= len(self.files)
         if self.files[i]['kind'] != 'rules':
@@ -197,7 +225,7 @@ class History(RuleBasedStateMachine):
         self.compare({'k': 'engine', 'path': self.path(i), 'mode': mode, 'txn': self.txns[t], 'rows': self.rows})
 
     @precondition(lambda self: self.files is not None)
-    @rule(i=st.integers(0, 4), t=st.integers(0, 3))
+    @rule(i=st.integers(0, 5), t=st.integers(0, 3))
     def reparse_and_match(self, i, t):
         """One long-lived MerchantEngine object re-parses another file's text, then matches."""
         i %= len(self.files)
